@@ -197,8 +197,15 @@ def jv(o):
 # instrumentation of the real modules (proxies installed as module globals; /repo is not touched)
 # ------------------------------------------------------------------------------------------------
 
-class Killed(Exception):
-    pass
+HARD_KILL = False
+
+
+def die():
+    """the process stops here: no Python or C buffers are flushed, no handlers run.  SIGKILL in the thorough tier;
+    os._exit (same effect on files, twice as fast in this sandbox) in the quick tier."""
+    if HARD_KILL:
+        os.kill(os.getpid(), signal.SIGKILL)
+    os._exit(137)
 
 
 class Env:
@@ -221,7 +228,7 @@ class Env:
     # -- file system tracing ---------------------------------------------------------------------
     def _op(self, *rec):
         if self.kill_at is not None and self.step == self.kill_at[0] and rec[0] != 'write':
-            os.kill(os.getpid(), signal.SIGKILL)
+            die()
         self.step += 1
         if self.trace is not None:
             self.trace.append(list(rec))
@@ -254,9 +261,9 @@ class _WalletOs:
         return os.stat(p)
 
     def rename(self, a, b):
-        ENV._op('rename', a, b)
         if ENV.fail_rename and os.path.exists(b):
-            raise PermissionError('simulated: target exists (Windows)')
+            raise PermissionError('simulated: os.rename refuses an existing target (Windows)')   # not an operation
+        ENV._op('rename', a, b)
         return os.rename(a, b)
 
     def replace(self, a, b):
@@ -268,7 +275,7 @@ class _WalletOs:
         return os.remove(p)
 
     def chmod(self, p, m):
-        ENV._op('chmod', p, m)
+        ENV._op('chmod', p, m & 0o7777)       # the kernel ignores the file-type bits of st_mode
         return os.chmod(p, m)
 
 
@@ -285,7 +292,7 @@ class _TracedFile:
         if k is not None and ENV.step == k[0]:
             self.f.write(data[:k[1]])
             self.f.flush()
-            os.kill(os.getpid(), signal.SIGKILL)
+            die()
         ENV._op('write', self.p, data)
         return self.f.write(data)
 
@@ -828,11 +835,6 @@ def storage_case(world, model, run, case):
     req = dict(path=hx(path), pid=str(mypid), data=hx(new), old=None if old is None else hx(old),
                oldmode=str(case['oldmode']), fallback=fallback, stale=None)
     mops = model.call('write_ops', **req)
-    if fallback:
-        # the real trace contains the refused rename before the remove; the model lists the operations that take effect
-        refused = [i for i, t in enumerate(trace) if t[0] == 'rename']
-        if len(refused) == 2:
-            trace = trace[:refused[0]] + trace[refused[0] + 1:]
     impl_trace = [[t[0]] + [hx(x) if isinstance(x, str) else x for x in t[1:]] for t in trace]
     for t in mops:
         if t[0] == 'chmod':
@@ -858,6 +860,8 @@ def storage_case(world, model, run, case):
 
     # 2. kill before every operation, and inside the write
     points = [(n, 0) for n in range(len(mops) + 1)] + [(1, kb) for kb in case.get('partials', [])]
+    if case.get('sample_points'):
+        points = [points[i] for i in case['sample_points'] if i < len(points)]
     for n, kb in points:
         reset()
         stale_pid = None
@@ -1250,6 +1254,8 @@ def load_corpus():
 
 
 def main(run):
+    global HARD_KILL
+    HARD_KILL = run.tier == 'thorough'
     world = World()
     model = vlib.Model('C13', oracles=ORACLES)
     rng = run.rng
@@ -1265,27 +1271,45 @@ def main(run):
                 'before every one of the operations and at 3 byte offsets inside the write. codec cases: plaintext lengths '
                 'around the AES block, 13 malformed values each. distinct = distinct case dict; non-trivial = more than one '
                 'operation.')
+    import time as _time
+    marks = [('start', _time.time())]
+
+    def mark(name):
+        marks.append((name, _time.time()))
     try:
         for case in load_corpus():
             run.count('corpus')
             run_case(world, model, run, case)
-        plan = [('lifecycle', S(40, 900)), ('walk', S(70, 2500)), ('crash', S(35, 900)), ('tamper', S(45, 1200)),
-                ('mixed', S(4, 60)), ('badseed', S(6, 80))]
+        mark('corpus')
+        plan = [('lifecycle', S(30, 500)), ('walk', S(45, 900)), ('crash', S(8, 250)), ('tamper', S(45, 900)),
+                ('mixed', S(4, 50)), ('badseed', S(6, 60))]
         for flavour, n in plan:
             for _ in range(n):
                 run_case(world, model, run, gen_machine_case(world, rng, flavour))
-        for size in [0, 8191, 8192, 8193, 70000]:
+            mark(flavour)
+        # every crash point on a few sizes; on the others (quick tier) the trace and three sampled crash points
+        for size in S([100, 8193], [0, 1, 100, 8191, 8192, 8193, 70000, 200000]):
             run_case(world, model, run, gen_storage_case(rng, size))
-        for _ in range(S(6, 120)):
-            run_case(world, model, run, gen_storage_case(rng))
+        for size in S([0, 8192, 70000], []):
+            c = gen_storage_case(rng, size)
+            c['sample_points'] = sorted(rng.sample(range(14), 3))
+            run_case(world, model, run, c)
+        for _ in range(S(3, 40)):
+            c = gen_storage_case(rng, rng.choice([1, 100, 4000, 8100, 8192, 8193, 20000]))
+            if run.tier != 'thorough':
+                c['sample_points'] = sorted(rng.sample(range(14), 3))
+            run_case(world, model, run, c)
+        mark('storage')
         fb = gen_storage_case(rng, 300)
         fb.update(fallback=True, old='{}', partials=[])
         run_case(world, model, run, fb)
         for _ in range(S(25, 600)):
             run_case(world, model, run, gen_codec_case(rng, 'aes'))
-        for _ in range(S(4, 60)):
+        mark('aes')
+        for _ in range(S(4, 50)):
             run_case(world, model, run, gen_codec_case(rng, 'better'))
-        for _ in range(S(5, 80)):
+        mark('better')
+        for _ in range(S(5, 60)):
             c = gen_machine_case(world, rng, 'lifecycle')
             pw = gen_password(rng)
             c.update(kind='pack', pw=pw, pw2=other_password(rng, pw), iv=rng.randbytes(16).hex(),
@@ -1293,9 +1317,11 @@ def main(run):
             if rng.random() < 0.7:
                 c['ops'] = [o for o in c['ops'] if o['k'] == 'add'] + [gen_pref(rng)]
             run_case(world, model, run, c)
+        mark('pack')
     finally:
         model.close()
         world.close()
+    run.notes.append({'seconds_per_section': {b[0]: round(b[1] - a[1], 1) for a, b in zip(marks, marks[1:])}})
     run.partial = ['C13_failed_unlock_unchanged_partial: that a wrong password IS refused is cryptographic chance (padding, '
                    'UTF-8, word list, Base58 checksum) and is not claimed; the theorem starts from the refusal']
     run.supporting = {'not_modelled': 'key derivation from the seed (C06), json.loads, the daemon API around the wallet'}
